@@ -334,6 +334,11 @@ func (fg *FnGen) step(fr *Frame, b *ssa.BasicBlock, ins ssa.Instruction, st *Sta
 		if _, ok := x.X.Type().Underlying().(*types.Basic); ok {
 			fg.set(st, rangeVarName(x), SInt, IntLit(0))
 		}
+		if mt, ok := x.X.Type().Underlying().(*types.Map); ok {
+			// the set of keys this iteration has yielded so far: a map range yields every key at most once
+			ks := ti.sortOf(mt.Key())
+			fg.set(st, rangeVarName(x), ArraySort(ks, SBool), &Term{Op: "as-const", Kind: KApp, Sort: ArraySort(ks, SBool), Args: []*Term{False}})
+		}
 		fr.vals[x] = Const(fr.prefix+"range_"+x.Name(), SInt)
 		return st
 	case *ssa.Next:
@@ -996,7 +1001,12 @@ func (fg *FnGen) next(fr *Frame, x *ssa.Next, st *State, reach *Term) *State {
 				if tup[2].Sort == elemSort(elemSort(val.Sort)) {
 					fact = And(fact, Eq(tup[2], Select(Select(val, m), tup[1])))
 				}
+				// ... and has not been yielded by this iteration before
+				name, srt := rangeVarName(r), ArraySort(ks, SBool)
+				seen := fg.lookup(st, name, srt)
+				fact = And(fact, Not(Select(seen, tup[1])))
 				fg.assumeIf(And(reach, tup[0]), fact)
+				fg.set(st, name, srt, Ite(tup[0], Store(seen, tup[1], True), seen))
 			}
 		}
 	}
